@@ -1727,8 +1727,27 @@ pub fn check(check: &mut Check) {
   };
   let max_ops = ctx.tier.pick(45usize, 90usize);
   let p2 = prop.clone();
+  // In the maint_always configurations the real janitor thread works concurrently with the history, so a
+  // failure there can depend on its timing; when vcore re-executes such a scenario that already failed
+  // once (shrinking, final confirmation) it is repeated up to 30 times before it counts as passing —
+  // otherwise the violation would be reported under a `nonreproducible/...` signature.
+  let failed_once: Arc<std::sync::Mutex<BTreeSet<u64>>> = Default::default();
   let out = vcore::drive(&ctx, &check.findings, 2, cases, move || scenario_strategy(focus, max_ops, excl), move |s| {
-    let r = execute_for(s, &p2);
+    let mut r = execute_for(s, &p2);
+    if s.cfg.maint_always {
+      let h = vcore::hash_str(&serde_json::to_string(s).unwrap_or_default());
+      if r.is_ok() && failed_once.lock().unwrap().contains(&h) {
+        for _ in 0..30 {
+          r = execute_for(s, &p2);
+          if r.is_err() {
+            break;
+          }
+        }
+      }
+      if matches!(&r, Err(f) if f.property == p2) {
+        failed_once.lock().unwrap().insert(h);
+      }
+    }
     // development aid (never set by vf): only keep failures whose signature contains VERIF_ONLY_SIG
     if let (Err(f), Ok(only)) = (&r, std::env::var("VERIF_ONLY_SIG")) {
       if !f.signature.contains(&only) {
